@@ -1,0 +1,70 @@
+//go:build verif
+
+package proxy
+
+import (
+	"context"
+	"io"
+	"net"
+	"time"
+
+	"github.com/datastax/cql-proxy/codecs"
+	"github.com/datastax/cql-proxy/proxycore"
+	"github.com/datastax/go-cassandra-native-protocol/message"
+	"github.com/datastax/go-cassandra-native-protocol/primitive"
+)
+
+type verifNopReceiver struct{}
+
+func (verifNopReceiver) Receive(r io.Reader) error {
+	buf := make([]byte, 256)
+	_, err := r.Read(buf)
+	return err
+}
+func (verifNopReceiver) Closing(_ error)           {}
+
+// VerifExecuteWithoutConn runs request.Execute(next) for a request whose session has no
+// usable connection to any of nHosts hosts (the state a request is in when the pool of its
+// host lost its last connection) and reports how many reply frames were written to the
+// client and whether Execute returned within the timeout.
+func VerifExecuteWithoutConn(next bool, nHosts int, timeout time.Duration) (replies int, returned bool) {
+	p := NewProxy(context.Background(), Config{})
+	lb := proxycore.NewRoundRobinLoadBalancer()
+	var hosts []*proxycore.Host
+	for i := 0; i < nHosts; i++ {
+		hosts = append(hosts, &proxycore.Host{Endpoint: proxycore.NewEndpoint("127.0.0.1:1" + string(rune('0'+i)))})
+	}
+	lb.OnEvent(&proxycore.BootstrapEvent{Hosts: hosts})
+	a, b := net.Pipe()
+	count := make(chan int, 1)
+	go func() {
+		n := 0
+		for {
+			_ = b.SetReadDeadline(time.Now().Add(timeout))
+			if _, err := codecs.DefaultRawCodec.DecodeRawFrame(b); err != nil {
+				count <- n
+				return
+			}
+			n++
+		}
+	}()
+	cl := &client{ctx: context.Background(), proxy: p, codec: codecs.CustomRawCodec}
+	cl.conn = proxycore.NewConn(a, verifNopReceiver{})
+	cl.conn.Start()
+	qp := lb.NewQueryPlan()
+	r := &request{client: cl, session: &proxycore.Session{}, state: isIdempotent, msg: &message.Options{},
+		stream: 1, version: primitive.ProtocolVersion4, qp: qp}
+	if !next {
+		r.host = qp.Next()
+	}
+	done := make(chan struct{})
+	go func() { r.Execute(next); close(done) }()
+	select {
+	case <-done:
+		returned = true
+	case <-time.After(timeout):
+	}
+	replies = <-count
+	_ = a.Close()
+	return replies, returned
+}
